@@ -590,6 +590,22 @@ def compare(ctx, case, mout, read_timeout=0.5, confirm=True):
     if problems and confirm and read_timeout < 2.0:
         # possible scheduling noise (a slow good response looks like a stall): confirm with a generous timeout
         return compare(ctx, case, mout, read_timeout=2.5, confirm=False)
+    if problems and not confirm:
+        # a disagreement is only reported when the implementation shows the same outcome once more: the scripted
+        # faults of the loopback endpoint are subject to socket timing (a reset 'at byte 0' may or may not reach the
+        # client before the status line does); an outcome that does not repeat is counted, not reported
+        try:
+            if kind == 'rdb':
+                again = impl_rdb(case, read_timeout)[:2]
+            elif kind == 'chunk':
+                again = impl_pre(case, read_timeout, False)[:2]
+            else:
+                again = impl_chunk(case, read_timeout)[:2]
+        except Exception:
+            again = None
+        if again is not None and tuple(again) != (icls, ireq):
+            ctx.count('outcome_not_repeatable_on_rerun')
+            problems = []
     ctx.traces_validated += 1
     if len({d['signature'] for d in ctx.disagreements}) >= 30:
         problems = problems[:0] if not problems else problems[:1]
